@@ -11,6 +11,8 @@ package main
 import (
 	"encoding/json"
 	"fmt"
+	"io"
+	"log"
 	"reflect"
 	"strings"
 
@@ -202,6 +204,23 @@ type optRun struct {
 	maps      []stk.Auxiliary // maps[k-1] is the k-th map of the harness
 }
 
+// swapLogger: choosing another logger (every other time) has nothing to say
+// about the levels, the options or any other setting
+func (r *optRun) swapLogger(k int) {
+	if k%2 != 0 {
+		return
+	}
+	var lg any = log.New(io.Discard, "", 0)
+	if k%4 == 0 {
+		lg = "off"
+	}
+	if r.isStack {
+		r.s.SetLogger(lg)
+	} else {
+		r.c.SetLogger(lg)
+	}
+}
+
 func (r *optRun) auxByPtr(isnil bool, p uintptr, n int) (string, any) {
 	if isnil {
 		return "None", nil
@@ -314,12 +333,14 @@ func (r *optRun) exec(c OCall) {
 		} else {
 			r.c.SetLogLevel(anyValues(c.Args)...)
 		}
+		r.swapLogger(len(c.Args))
 	case "unsetlog":
 		if r.isStack {
 			r.s.UnsetLogLevel(anyValues(c.Args)...)
 		} else {
 			r.c.UnsetLogLevel(anyValues(c.Args)...)
 		}
+		r.swapLogger(len(c.Args) + 1)
 	default:
 		panic("unknown call " + c.Op)
 	}
